@@ -440,7 +440,18 @@ def execute(plan, monitor_classes=(), wall_s=60.0, keep_log=True, pre_hook=None)
             if pre_hook is not None:
                 pre_hook(w)
             entry = plan.get("entry", "tree")
-            if entry == "tree":
+            if entry == "tree" and plan.get("redirect_stdout"):
+                # environment variation: the tree is built and run while sys.stdout is replaced (as under
+                # contextlib.redirect_stdout or a test runner's capture fixture)
+                import contextlib
+                import io as _io
+
+                with contextlib.redirect_stdout(_io.StringIO()):
+                    cfg = build_config(plan)
+                    tree = SimDemeTree(cfg)
+                    tree.run()
+                w.result = tree
+            elif entry == "tree":
                 cfg = build_config(plan)
                 tree = SimDemeTree(cfg)
                 tree.run()
